@@ -18,6 +18,9 @@ pub enum D {
     Dotted(Vec<D>, Box<D>),
     Vector(Vec<D>),
     Bytes(Vec<u8>),
+    /// (make-rectangular re im); compared with equal? after the round trip (the canonical form
+    /// of a complex number is its printed form, which is what is under test)
+    Complex(Box<D>, Box<D>),
 }
 
 fn esc(s: &str, out: &mut String) {
@@ -113,6 +116,16 @@ impl D {
                 out.push_str(&b.iter().map(|x| x.to_string()).collect::<Vec<_>>().join(" "));
                 out.push(')');
             }
+            D::Complex(..) => out.push_str("#<complex>"),
+        }
+    }
+
+    pub fn has_complex(&self) -> bool {
+        match self {
+            D::Complex(..) => true,
+            D::List(xs) | D::Vector(xs) => xs.iter().any(|x| x.has_complex()),
+            D::Dotted(xs, t) => xs.iter().any(|x| x.has_complex()) || t.has_complex(),
+            _ => false,
         }
     }
 
@@ -156,6 +169,7 @@ impl D {
             }
             D::Vector(xs) => format!("(immutable-vector{})", xs.iter().map(|x| format!(" {}", x.expr())).collect::<String>()),
             D::Bytes(b) => format!("(bytes{})", b.iter().map(|x| format!(" {}", x)).collect::<String>()),
+            D::Complex(re, im) => format!("(make-rectangular {} {})", re.expr(), im.expr()),
         }
     }
 
@@ -197,6 +211,10 @@ impl D {
             D::Dotted(xs, t) => format!("({} . {})", xs.iter().map(|x| x.write()).collect::<Vec<_>>().join(" "), t.write()),
             D::Vector(xs) => format!("#({})", xs.iter().map(|x| x.write()).collect::<Vec<_>>().join(" ")),
             D::Bytes(b) => format!("#u8({})", b.iter().map(|x| x.to_string()).collect::<Vec<_>>().join(" ")),
+            D::Complex(re, im) => {
+                let i = im.write();
+                format!("{}{}{}i", re.write(), if i.starts_with('-') || i.starts_with('+') { "" } else { "+" }, i)
+            }
         }
     }
 
@@ -246,6 +264,9 @@ impl D {
             D::Bytes(_) => {
                 out.insert("bytevector");
             }
+            D::Complex(..) => {
+                out.insert("complex");
+            }
         }
     }
 }
@@ -262,6 +283,24 @@ const SYMS_PLAIN: &[&str] = &["a", "foo", "bar-baz", "x1", "set!", "list->vector
 const SYMS_ODD: &[&str] = &["hello world", "", "a|b", "1+", "+1", "-", "...", "#foo", "a;b", "(", "A", "\u{3bb}", "a\"b", "1", "1.5", "-x", ".x", "x'y", "#t", "two  spaces", "tab\there", "@at", "a\\b"];
 
 pub fn leaf(c: &mut Chooser, o: &DatumOpts) -> D {
+    if c.chance(1, 14) {
+        // real and imaginary parts of every real kind except NaN (NaN is not equal? to itself)
+        let part = |c: &mut Chooser| match c.below(7) {
+            0 => D::Int([0, 1, -1, 42][c.below(4)]),
+            1 => D::Ratio([1, -1, 9][c.below(3)], [2, 5][c.below(2)]),
+            2 => D::Float([1.5, -2.25, 0.1, 1e21][c.below(4)]),
+            3 => D::Float(f64::INFINITY),
+            4 => D::Float(f64::NEG_INFINITY),
+            5 => D::Big("9223372036854775808".to_string()),
+            _ => D::Int(7),
+        };
+        let re = part(c);
+        let mut im = part(c);
+        if im == D::Int(0) {
+            im = D::Int(1);
+        }
+        return D::Complex(Box::new(re), Box::new(im));
+    }
     match c.below(12) {
         0 => D::Int([0, 1, -1, 42, i64::MAX, i64::MIN, 1 << 53, -(1 << 31)][c.below(8)]),
         1 => D::Big(["9223372036854775808", "-9223372036854775809", "123456789012345678901234567890", "-340282366920938463463374607431768211456"][c.below(4)].to_string()),
